@@ -77,3 +77,56 @@ Example C04_nonvacuous :
   | _, _, _ => False
   end.
 Proof. vm_compute. repeat split. Qed.
+
+(** ** The hand-over between border nodes (ChainProofs): a forward scan moving along the leaf chain of a layer
+    while writers insert, remove, split nodes and unlink emptied nodes -- every interleaving, any number of
+    nodes.  [crun true] is the scanner after the repair 61cfe63, [crun false] the original one. *)
+From Yk Require Import ChainDefs ChainProofs.
+
+(** the delivered keys are strictly ascending at every instant *)
+Theorem C04_chain_ascending : forall kss evs s,
+  kss_ok kss = true -> crun true (cinit kss) evs = Some s ->
+  sorted_strict (sc_res (c_scan s)) = true.
+Proof. exact chain_scan_ascending. Qed.
+Print Assumptions C04_chain_ascending.
+
+(** every delivered key lies in the interval and was present at some instant since the invocation *)
+Theorem C04_chain_sound : forall kss evs s k,
+  kss_ok kss = true -> crun true (cinit kss) evs = Some s ->
+  In k (sc_res (c_scan s)) ->
+  in_interval (sc_l (c_scan s)) (sc_r (c_scan s)) k = true /\ In k (c_ever s).
+Proof. exact chain_scan_sound. Qed.
+Print Assumptions C04_chain_sound.
+
+(** a completed scan has delivered every key of the interval that was present during the whole scan *)
+Theorem C04_chain_no_lost_stable_key : forall kss evs s k,
+  kss_ok kss = true -> crun true (cinit kss) evs = Some s ->
+  sc_pc (c_scan s) = CDone -> In k (c_stable s) ->
+  in_interval (sc_l (c_scan s)) (sc_r (c_scan s)) k = true ->
+  In k (sc_res (c_scan s)).
+Proof. exact chain_scan_no_lost_stable_key. Qed.
+Print Assumptions C04_chain_no_lost_stable_key.
+
+(** meaning of the ghosts used above *)
+Theorem C04_chain_ghosts : forall fx kss evs s k,
+  kss_ok kss = true -> crun fx (cinit kss) evs = Some s ->
+  (In k (c_stable s) -> In k (all_keys (c_nodes s))) /\
+  (scanning (c_scan s) = true -> In k (all_keys (c_nodes s)) -> In k (c_ever s)).
+Proof.
+  intros fx kss evs s k H1 H2. split.
+  - exact (chain_stable_present fx kss evs s k H1 H2).
+  - exact (chain_present_ever fx kss evs s k H1 H2).
+Qed.
+Print Assumptions C04_chain_ghosts.
+
+(** the original scanner is refuted (finding F8): after the border it has left is emptied and unlinked, keys
+    inserted at or below the delivered ones land in the next border and are delivered again *)
+Theorem C04_original_chain_not_ascending_refuted :
+  exists evs s, crun false (cinit [[10]; [20; 30]]) evs = Some s /\
+    sc_pc (c_scan s) = CDone /\ sorted_strict (sc_res (c_scan s)) = false.
+Proof. exact chain_original_not_ascending. Qed.
+Print Assumptions C04_original_chain_not_ascending_refuted.
+
+Example C04_chain_nonvacuous : exists evs s, crun true (cinit [[10]; [20; 30]]) evs = Some s /\
+  sc_pc (c_scan s) = CDone /\ sc_res (c_scan s) = [10; 20; 30] /\ (1 <=? sc_restarts (c_scan s)) = true.
+Proof. exact chain_nonvacuous. Qed.
